@@ -67,6 +67,10 @@ def programs(t):
         lines.append('P(EU<%d>, 0, EU<%d>, -3, 2)' % (d, min(d, 31)))
         if d <= 40:
             lines.append('PIR(EU<%d>, 0, 2, i64)' % d)
+    # overflow-checked reps narrower than int (results are int: unary minus and sums fit, no overflow may be reported)
+    for rep in ['OVU8S', 'OVU16S', 'OVI8S']:
+        lines.append('P(%s, -3, %s, -3, 2)' % (rep, rep))
+        lines.append('P(%s, 0, %s, -2, 2)' % (rep, rep))
     # one-digit signed elastic reps (the values -1, 0, 1): x * -1, and alignment by an elastic multiply
     for (l, r, le, re) in [('ES<1>', 'ES<8>', 0, -2), ('ES<8>', 'ES<1>', -3, 0), ('ES<1>', 'ES<1>', 2, 0), ('ES<1>', 'i8', -1, -4), ('ES<31>', 'ES<1>', 0, 3)]:
         lines.append('P(%s, %d, %s, %d, 2)' % (l, le, r, re))
